@@ -383,10 +383,56 @@ func c10Scope(c *Check, tables map[string][]*ssa.Function) {
 	for _, f := range tables["exprFunctions"] {
 		inTable[f] = true
 	}
+	// helpers that only the table-dispatched iterators call (a loop shared by two
+	// of them) run under the same dispatch site: its save/delete/restore covers them
+	{
+		callers := map[*ssa.Function]map[*ssa.Function]bool{}
+		for _, g := range p.RepoFuncs() {
+			if fnPkgPath(g) != evalPkg {
+				continue
+			}
+			root := g
+			for root.Parent() != nil {
+				root = root.Parent()
+			}
+			eachInstr(g, func(_ *ssa.BasicBlock, i ssa.Instruction) {
+				for _, op := range i.Operands(nil) {
+					if op == nil || *op == nil {
+						continue
+					}
+					if callee, ok := (*op).(*ssa.Function); ok && fnPkgPath(callee) == evalPkg && callee.Parent() == nil && callee != root {
+						if callers[callee] == nil {
+							callers[callee] = map[*ssa.Function]bool{}
+						}
+						callers[callee][root] = true
+					}
+				}
+			})
+		}
+		for changed := true; changed; {
+			changed = false
+			for callee, cs := range callers {
+				if inTable[callee] || len(cs) == 0 {
+					continue
+				}
+				all := true
+				for c := range cs {
+					if !inTable[c] {
+						all = false
+					}
+				}
+				if all {
+					inTable[callee] = true
+					changed = true
+				}
+			}
+		}
+	}
 	so := buildScopeOps(p)
 	c.Counts["scope_slot_helpers"] = len(so.kind)
 	// (a) binders outside the table: every binding under a scope-variable key is deleted on all paths
 	nb := 0
+	nw := 0
 	for _, f := range p.RepoFuncs() {
 		if fnPkgPath(f) != evalPkg || strings.HasSuffix(p.fnFile(f), "/debugger.go") {
 			continue
@@ -411,6 +457,28 @@ func c10Scope(c *Check, tables map[string][]*ssa.Function) {
 				isSV = true
 			}
 			if !isSV {
+				// Any other binding written into the scope the caller handed in
+				// outlives the call: only a `let` may do that (the language binds
+				// it for the rest of the enclosing transform), and a write-back
+				// of a value read from the same key.
+				if derives(mu.Value, func(v ssa.Value) bool {
+					lk, ok := v.(*ssa.Lookup)
+					return ok && isScopeType(lk.X.Type()) && exprKey(lk.Index, 0) == exprKey(mu.Key, 0)
+				}, nil) {
+					return
+				}
+				// (the scope's own methods are how its owner fills it)
+				if r := f.Signature.Recv(); r != nil && isScopeType(r.Type()) {
+					return
+				}
+				nw++
+				isLet := derives(mu.Key, func(v ssa.Value) bool {
+					own, fld, _, ok := loadedField(v)
+					return ok && fld == "Let" && own != nil && strings.Contains(own.Obj().Name(), "Stmt_Let")
+				}, nil)
+				c.Cond(isLet, "SCOPE-WRITERS", fmt.Sprintf("%s|binding under %s", fnName(f), operandText(mu.Key)), p.pos(mu.Pos()),
+					"a `let` binding: kept for the statements that follow, by the language's design",
+					"evaluation code files a binding in the scope its caller handed in, under a key that is neither a scope variable (bound and unbound around an iteration) nor the name of a `let`: the caller's variable of that name is overwritten and the binding outlives the evaluation")
 				return
 			}
 			// restoring a saved binding is not a new binding
@@ -502,6 +570,8 @@ func c10Scope(c *Check, tables map[string][]*ssa.Function) {
 				"nobody saves and restores the previous binding of this scope variable: an outer variable with the same name is deleted by the iteration")
 		})
 	}
+	c.Counts["other_scope_writes"] = nw
+	c.Okf("SCOPE-WRITERS", "scan", "-", "writes into a caller-supplied scope under a key that is not a scope variable: %d found and judged", nw)
 	c.Counts["scope_variable_bindings"] = nb
 	// (b) dispatch site: dynamic call of an exprFunctions entry
 	nd := 0
